@@ -407,6 +407,39 @@ fn to_tv(v: Value) -> TV {
     }
 }
 
+/// Does the graph contain operators whose NaN / -inf behaviour is part of a fusion's contract?
+fn nan_relevant(t: &Tm) -> bool {
+    t.g.nodes.iter().any(|n| ["Softmax", "IsNaN", "Where"].contains(&n.op_type.as_str()))
+}
+
+/// Special-value draw for NaN-relevant templates: whole lanes of -inf, NaN entries, +-inf.
+fn gen_nan_input(rng: &mut Rng, s: &InSpec, k: usize) -> TV {
+    let n: usize = s.dims.iter().product();
+    let last = s.dims.last().copied().unwrap_or(1).max(1);
+    let mut v: Vec<f32> = (0..n).map(|_| -2.0 + 4.0 * rng.f32_unit()).collect();
+    for r in 0..(n / last).max(1) {
+        match (k + r + rng.usize_below(2)) % 4 {
+            0 => {
+                for c in 0..last.min(n) {
+                    v[r * last + c] = f32::NEG_INFINITY; // fully masked lane
+                }
+            }
+            1 => {
+                if n > 0 {
+                    v[(r * last + rng.usize_below(last)).min(n - 1)] = f32::NAN;
+                }
+            }
+            2 => {
+                if n > 0 {
+                    v[(r * last + rng.usize_below(last)).min(n - 1)] = if rng.chance(1, 2) { f32::INFINITY } else { f32::NEG_INFINITY };
+                }
+            }
+            _ => {}
+        }
+    }
+    TV::F(s.dims.clone(), v)
+}
+
 fn gen_input(rng: &mut Rng, s: &InSpec, special: bool) -> TV {
     let n: usize = s.dims.iter().product();
     match s.dtype {
@@ -602,9 +635,29 @@ pub fn run_template(out: &mut Out, rng: &mut Rng, t: &Tm, fired: &mut BTreeMap<S
     };
     let base_ops = op_names(&base);
     // inputs: three draws (one with special values)
-    let draws: Vec<Vec<(String, TV)>> = (0..3)
+    let mut draws: Vec<Vec<(String, TV)>> = (0..3)
         .map(|k| t.ins.iter().map(|s| (s.name.clone(), gen_input(rng, s, k == 2))).collect())
         .collect();
+    if nan_relevant(t) {
+        // two more draws with -inf lanes / NaN / +-inf in the f32 inputs (alternating which input gets them)
+        for k in 0..2usize {
+            draws.push(
+                t.ins
+                    .iter()
+                    .enumerate()
+                    .map(|(j, s)| {
+                        let tv = if s.dtype == dt::FLOAT && (t.ins.len() == 1 || (j + k) % 2 == 1 || s.class == VC::Mask) {
+                            gen_nan_input(rng, s, k)
+                        } else {
+                            gen_input(rng, s, false)
+                        };
+                        (s.name.clone(), tv)
+                    })
+                    .collect(),
+            );
+        }
+        out.bucket("nan-special-inputs");
+    }
     let base_runs: Vec<Result<Vec<TV>, String>> = draws
         .iter()
         .map(|d| match hcommon::catch(|| run_model(&base, d, &out_names)) {
